@@ -35,10 +35,18 @@ def once_case(sc):
         sim.world.at(1, lambda: sim.create('o1', {'x': 0}), 1)
         n = {'op': 1}
 
-        def restart():
-            ops[-1].finish()
-            n['op'] += 1
-            ops.append(sim.operator(f'op{n["op"]}', reg, sim.settings()))
+        def restart():              # graceful stop now; the next process starts once this one has returned (never nested in a world event)
+            old = ops[-1]
+            if not old.done and not old.stop_flag.is_set():
+                old.stop()
+
+            def start_when_down():
+                if not old.done:
+                    sim.world.at(sim.now + 1, start_when_down, 1); return
+                if ops[-1] is old:
+                    n['op'] += 1
+                    ops.append(sim.operator(f'op{n["op"]}', reg, sim.settings()))
+            sim.world.at(sim.now + 1, start_when_down, 1)
         for (t, what) in sc['env']:
             if what == 'edit':
                 sim.world.at(t, lambda t=t: sim.set_spec('o1', x=t), 1)
